@@ -405,7 +405,7 @@ func drawC04(rt *rapid.T) interface{} {
 	nt := rapid.IntRange(1, 4).Draw(rt, "ntasks")
 	maxOps := 7
 	if nt == 1 {
-		maxOps = 60
+		maxOps = hx.Pick(60, 150)
 	}
 	next := 1
 	for i := 0; i < nt; i++ {
@@ -533,6 +533,7 @@ func TestC04(t *testing.T) {
 		Stubs:       []string{"sync (simsync.Mutex)", "goroutine scheduling (simrt)"},
 		Rule: "scenario = cache type x capacity x (wide: shard count) x 1-4 client programs over Set/SetIfAbsent/SetAndGetRemoved/Get/Peek/Exist/Delete/Clear/SetCapacity/Stats/Keys/Items with sizes in {0,1,2,5,9} (1 client: up to 60 ops = sequential statement) x scheduler knobs/tape; " +
 			"history + final Keys/Items/Stats checked with porcupine against an ideal LRU (one per shard for the wide variants); non-trivial = >=2 tasks and >=1 switch (or >=3 ops sequentially); distinct = distinct event-log hash",
+		Probes:      []string{"porcupine-ok"},
 		Assumptions: []string{"wide variants: per-shard capacity is capacity/shards+1 as documented (repeats a formula of the implementation)", "tiny: every entry weighs 1; its SetAndGetRemoved on an existing key reports nothing removed"},
 	})
 }
